@@ -7,7 +7,7 @@ import re
 
 from ..core import AnalysisError
 from ..cxxlib import (dominating_guards, remaining_guard, is_ref, nows, enclosing, counted_loop, stmts_of,
-                      mentions_remaining, returns_false, if_parts, always_returns)
+                      mentions_remaining, is_remaining, returns_false, if_parts, always_returns)
 from .. import templ
 from ..pyfront import unparse
 
@@ -285,7 +285,14 @@ def resize_bounded(arg, call, body, pos, end):
             b = cond.bin
             if kind.startswith('early-exit') and pol is False and b is not None and b[0] in ('>', '>=') \
                     and is_ref(uncast(b[1]), a.ref) and mentions_remaining(b[2], pos, end):
-                return True, 'guarded against end - pos'
+                # the comparison must be unsigned at full width: a signed comparison lets a counter with the top bit set
+                # (negative signed sizer, u64 >= 2^63) pass and reach resize() with a value near SIZE_MAX
+                lhs = b[1].strip()
+                lhs_ok = lhs.kind == 'DeclRefExpr' or any(t in (lhs.type or '') for t in ('size_t', 'unsigned long', 'uint64_t'))
+                if is_remaining(b[2], pos, end) and lhs_ok:
+                    return True, 'guarded against size_t(end - pos)'
+                return False, ('the guard `%s` compares as signed or at reduced width: a count with the top bit set passes it'
+                               % cond.text)
     return False, 'count comes straight from the input'
 
 
